@@ -190,6 +190,12 @@ def result_branches(body, bi):
         es = cfg.enum_switch(body, b)
         if es and es.enum == "core::result::Result" and "Ok" in es.targets and "Err" in es.targets:
             return [es.targets["Ok"]], [es.targets["Err"]]
+        # `if let` / `while let` on one variant: the other one is `otherwise`
+        if es and es.enum == "core::result::Result" and es.otherwise_live and len(es.targets) == 1:
+            if "Ok" in es.targets:
+                return [es.targets["Ok"]], [es.otherwise]
+            if "Err" in es.targets:
+                return [es.otherwise], [es.targets["Err"]]
         t = body.blocks[b].get("term")
         if t and t["k"] == "call" and cname(t) in ("is_err", "is_ok") and "Result" in (t.get("callee") or ""):
             nb = t.get("t")
